@@ -82,6 +82,12 @@ class Eval:
         if k == "Local":
             d = self.canon.defs.get(n["lid"])
             if d is not None and d[0] == "let" and not d[2]:
+                if n["lid"] in self.canon.assigned:
+                    # `let mut v = a; v |= b; ..` : straight-line updates fold into one expression
+                    sv = self.canon.straight_value(n)
+                    if sv is None:
+                        raise Unsupported("local %s is updated under control flow" % n["name"])
+                    return self.ev(sv, depth + 1)
                 return self.ev(d[1], depth + 1)
             raise Unsupported("local %s has no single definition" % n["name"])
         if k == "Cast":
@@ -119,6 +125,17 @@ class Eval:
                 if op == ">>":
                     return resize(a[sh:], wa)
                 return resize([0] * sh + a, wa)
+            if op == "!=":
+                a = self.ev(n["l"], depth + 1)
+                b = self.ev(n["r"], depth + 1)
+                kb = known_int(b)
+                live = [i for i, x in enumerate(a) if x != 0]
+                if kb == 0 and live == [0]:
+                    return [a[0]]
+                if kb == 1 and live == [0]:
+                    x = a[0]
+                    return [(1 - x) if x in (0, 1) else None]
+                raise Unsupported("inequality that is not a single-bit test")
             if op in ("&", "|", "^", "+", "-", "=="):
                 a = self.ev(n["l"], depth + 1)
                 b = self.ev(n["r"], depth + 1)
